@@ -32,7 +32,7 @@ extern char *mpt_array_string(MPT_STRUCT(array) *arr)
 		return 0;
 	}
 	/* accept character data only */
-	if (!traits || (!(traits = mpt_type_traits('c')))) {
+	if (!traits && (!(traits = mpt_type_traits('c')))) {
 		errno = ENOTSUP;
 		return 0;
 	}
